@@ -6,7 +6,9 @@
 From V.lib Require Import Base.
 From V.model Require Import Requests RequestsSpec.
 From V.gen Require Import Consts.
-From Coq Require Import Sorted.
+(* Exported on purpose: props/C13.v states the chain-order theorem with StronglySorted and imports
+   only this file besides the models, so the name must be visible through it. *)
+From Coq Require Export Sorted.
 
 Local Open Scope Z_scope.
 
@@ -426,4 +428,430 @@ Theorem requests_refine :
 Proof.
   intros MAXR LIM ops. unfold run, q_run.
   rewrite run_from_refine by reflexivity. reflexivity.
+Qed.
+
+(* ---------------------------------------------------------------------------------------- *)
+(* 2. The reference queue                                                                     *)
+
+Theorem window_is_ten : maxRequestedBlocks = 10.
+Proof. reflexivity. Qed.
+
+(* One case analysis of q_step, used by every invariant below: the possible state changes,
+   together with the request issued / block popped by the step. *)
+Section Spec.
+Variable MAXR LIM : Z.
+
+Inductive qtrans (q : qstate) : op -> qstate -> list Z -> list Z -> Prop :=
+| T_same o : qtrans q o q [] []
+| T_ann_req prev h :
+    q_tail q = prev -> nreq q = length (queue q) -> q_over MAXR LIM q = false ->
+    qtrans q (OAnnounce prev h)
+           (QState (queue q ++ [(h, None)]) (S (nreq q)) (q_last_saved q)) [h] []
+| T_ann_wait prev h :
+    q_tail q = prev ->
+    qtrans q (OAnnounce prev h)
+           (QState (queue q ++ [(h, None)]) (nreq q) (q_last_saved q)) [] []
+| T_deliver h size l d :
+    fill (take (nreq q) (queue q)) h size = Some (l, d) ->
+    qtrans q (ODeliver h size)
+           (QState (l ++ drop (nreq q) (queue q)) (nreq q) (q_last_saved q)) [] []
+| T_pop h sz l n :
+    queue q = (h, Some sz) :: l -> nreq q = S n ->
+    qtrans q OPop (QState l n h) [] [h]
+| T_next h b r :
+    drop (nreq q) (queue q) = (h, b) :: r -> q_over MAXR LIM q = false ->
+    qtrans q ONext (QState (queue q) (S (nreq q)) (q_last_saved q)) [h] []
+| T_clear o :
+    o = OClearAll \/ o = OReset ->
+    qtrans q o (QState [] 0 (q_last_saved q)) [] []
+| T_clear_after h i :
+    find_idx (fun x : Z * option Z => fst x =? h) (queue q) 0 = Some i ->
+    qtrans q (OClearAfter h)
+           (QState (take (S i) (queue q)) (Nat.min (nreq q) (S i)) (q_last_saved q)) [] []
+| T_set_last h :
+    qtrans q (OSetLast h) (QState (queue q) (nreq q) h) [] [].
+
+Lemma q_step_trans q o :
+  qtrans q o (fst (q_step MAXR LIM q o))
+         (issued_of o (snd (q_step MAXR LIM q o)))
+         (popped_of o (snd (q_step MAXR LIM q o))).
+Proof.
+  destruct o as [prev h|h size| | | |h|h| | |d|h|h]; unfold q_step; cbv beta zeta; unfold OK, ERR.
+  - destruct (negb (q_tail q =? prev)) eqn:E1; cbn [fst snd issued_of popped_of].
+    + apply T_same.
+    + apply negb_false_iff, Z.eqb_eq in E1.
+      destruct ((nreq q =? length (queue q))%nat && negb (q_over MAXR LIM q)) eqn:E2;
+        cbn [fst snd issued_of popped_of].
+      * apply andb_true_iff in E2 as [E2 E3].
+        apply Nat.eqb_eq in E2. apply negb_true_iff in E3.
+        apply T_ann_req; assumption.
+      * apply T_ann_wait; assumption.
+  - destruct (fill (take (nreq q) (queue q)) h size) as [[l d]|] eqn:Hf;
+      cbn [fst snd issued_of popped_of].
+    + eapply T_deliver; exact Hf.
+    + apply T_same.
+  - destruct (queue q) as [|[h [sz|]] l] eqn:Eq; cbn [fst snd issued_of popped_of];
+      [apply T_same| |apply T_same].
+    destruct (nreq q) as [|n] eqn:En; cbn [fst snd issued_of popped_of]; [apply T_same|].
+    eapply T_pop; [exact Eq|exact En].
+  - destruct (drop (nreq q) (queue q)) as [|[h b] r] eqn:Ed; cbn [fst snd issued_of popped_of];
+      [apply T_same|].
+    destruct (q_over MAXR LIM q) eqn:Eo; cbn [fst snd issued_of popped_of]; [apply T_same|].
+    eapply T_next; [exact Ed|exact Eo].
+  - cbn [fst snd issued_of popped_of]. apply T_clear. left; reflexivity.
+  - destruct (find_idx (fun x : Z * option Z => fst x =? h) (queue q) 0) as [i|] eqn:Hi;
+      cbn [fst snd issued_of popped_of].
+    + apply T_clear_after. exact Hi.
+    + apply T_same.
+  - cbn [fst snd issued_of popped_of]. apply T_set_last.
+  - cbn [fst snd issued_of popped_of]. apply T_clear. right; reflexivity.
+  - cbn [fst snd issued_of popped_of]. apply T_same.
+  - cbn [fst snd issued_of popped_of]. apply T_same.
+  - cbn [fst snd issued_of popped_of]. apply T_same.
+  - cbn [fst snd issued_of popped_of]. apply T_same.
+Qed.
+
+(* induction principle for q_after *)
+Lemma q_after_ind (I : qstate -> Prop) (P : op -> Prop) :
+  I (q_init 0) ->
+  (forall q o, P o -> I q -> I (fst (q_step MAXR LIM q o))) ->
+  forall ops, Forall P ops -> I (q_after MAXR LIM ops).
+Proof.
+  intros H0 Hstep ops. unfold q_after. generalize (q_init 0) H0. clear H0.
+  induction ops as [|o ops IH]; intros q Hq HP; cbn [fold_left]; [exact Hq|].
+  inversion HP as [|? ? Ho HP']; subst.
+  apply IH; [|exact HP']. apply Hstep; assumption.
+Qed.
+
+Lemma Forall_True_ops (ops : list op) : Forall (fun _ => True) ops.
+Proof. induction ops; constructor; auto. Qed.
+
+(* well-formedness: the requested part is a prefix of the queue *)
+Definition wf (q : qstate) : Prop := (nreq q <= length (queue q))%nat.
+
+Lemma wf_trans q o q1 iss pop : qtrans q o q1 iss pop -> wf q -> wf q1.
+Proof.
+  unfold wf. intros Ht Hw.
+  destruct Ht as [o|prev h Ht Hn Ho|prev h Ht|h size l d Hf|h sz l n Eq En|h b r Ed Eo|o Ho|h i Hi|h];
+    cbn [queue nreq].
+  - exact Hw.
+  - rewrite app_length. cbn [length]. lia.
+  - rewrite app_length. cbn [length]. lia.
+  - apply fill_Some in Hf as (Hl & _ & _).
+    rewrite app_length, Hl, take_length, drop_length. lia.
+  - rewrite Eq, En in Hw. cbn [length] in Hw. lia.
+  - apply (f_equal length) in Ed. rewrite drop_length in Ed. cbn [length] in Ed. lia.
+  - cbn [length]. lia.
+  - rewrite take_length. lia.
+  - exact Hw.
+Qed.
+
+(* ---- window bound ---- *)
+Lemma q_over_false q :
+  q_over MAXR LIM q = false -> Z.of_nat (nreq q) < MAXR /\ buffered q <= LIM.
+Proof.
+  unfold q_over. intros H. apply orb_false_iff in H as [H1 H2].
+  rewrite Z.geb_leb in H1. apply Z.leb_gt in H1.
+  rewrite Z.gtb_ltb in H2. apply Z.ltb_ge in H2. lia.
+Qed.
+
+Lemma bound_trans q o q1 iss pop :
+  0 <= MAXR -> qtrans q o q1 iss pop -> Z.of_nat (nreq q) <= MAXR -> Z.of_nat (nreq q1) <= MAXR.
+Proof.
+  intros HM Ht Hb.
+  destruct Ht as [o|prev h Ht Hn Ho|prev h Ht|h size l d Hf|h sz l n Eq En|h b r Ed Eo|o Ho|h i Hi|h];
+    cbn [queue nreq]; try lia.
+  - apply q_over_false in Ho. lia.
+  - apply q_over_false in Eo. lia.
+Qed.
+
+End Spec.
+
+Theorem window_bound :
+  forall (MAXR LIM : Z) (ops : list op), 0 <= MAXR ->
+    let q := q_after MAXR LIM ops in
+    Z.of_nat (nreq q) <= MAXR /\ (nreq q <= length (queue q))%nat.
+Proof.
+  intros MAXR LIM ops HM. cbv zeta.
+  apply (q_after_ind MAXR LIM
+           (fun q => Z.of_nat (nreq q) <= MAXR /\ (nreq q <= length (queue q))%nat)
+           (fun _ => True)).
+  - cbn. lia.
+  - intros q o _ [Hb Hw]. pose proof (q_step_trans MAXR LIM q o) as Ht. split.
+    + eapply bound_trans; eauto.
+    + eapply wf_trans; eauto.
+  - apply Forall_True_ops.
+Qed.
+
+(* ---- byte accounting ---- *)
+Definition no_body (x : Z * option Z) : Prop := snd x = None.
+
+Lemma waiting_trans MAXR LIM q o q1 iss pop :
+  qtrans MAXR LIM q o q1 iss pop ->
+  Forall no_body (drop (nreq q) (queue q)) -> Forall no_body (drop (nreq q1) (queue q1)).
+Proof.
+  intros Ht Hw.
+  destruct Ht as [o|prev h Ht Hn Ho|prev h Ht|h size l d Hf|h sz l n Eq En|h b r Ed Eo|o Ho|h i Hi|h];
+    cbn [queue nreq].
+  - exact Hw.
+  - rewrite drop_ge; [constructor|]. rewrite app_length. cbn [length]. lia.
+  - rewrite skipn_app. apply Forall_app. split; [exact Hw|].
+    apply Forall_drop. constructor; [reflexivity|constructor].
+  - apply fill_Some in Hf as (Hl & _ & _).
+    rewrite skipn_app. apply Forall_app. split.
+    + rewrite drop_ge; [constructor|]. rewrite Hl, take_length. lia.
+    + apply Forall_drop. exact Hw.
+  - rewrite Eq, En in Hw. exact Hw.
+  - replace (S (nreq q)) with (nreq q + 1)%nat by lia.
+    rewrite <- drop_drop. apply Forall_drop. exact Hw.
+  - constructor.
+  - destruct (Nat.min_spec (nreq q) (S i)) as [[Hlt ->]|[Hge ->]].
+    + replace (S i) with (nreq q + (S i - nreq q))%nat by lia.
+      rewrite <- take_drop_commute. apply Forall_take. exact Hw.
+    + rewrite drop_ge; [constructor|]. rewrite take_length. lia.
+  - exact Hw.
+Qed.
+
+Theorem accounting :
+  forall (MAXR LIM : Z) (ops : list op),
+    let q := q_after MAXR LIM ops in
+    Forall (fun x => snd x = None) (waiting_part q) /\
+    (Forall (fun x => snd x = None) (requested_part q) -> buffered q = 0).
+Proof.
+  intros MAXR LIM ops. cbv zeta.
+  assert (Hw : Forall no_body (waiting_part (q_after MAXR LIM ops))).
+  { unfold waiting_part.
+    apply (q_after_ind MAXR LIM (fun q => Forall no_body (drop (nreq q) (queue q))) (fun _ => True)).
+    - constructor.
+    - intros q o _ Hq. eapply waiting_trans; [apply q_step_trans|exact Hq].
+    - apply Forall_True_ops. }
+  split; [exact Hw|].
+  intros Hr. unfold buffered, requested_part, waiting_part in *.
+  rewrite (sizes_take_drop (nreq (q_after MAXR LIM ops))).
+  rewrite (sizes_all_none _ Hr), (sizes_all_none _ Hw). reflexivity.
+Qed.
+
+(* ---- pause ---- *)
+Theorem pause :
+  forall (MAXR LIM : Z) (q : qstate) (prev h : Z),
+    (Z.of_nat (nreq q) >= MAXR \/ buffered q > LIM) ->
+    nreq (fst (q_step MAXR LIM q ONext)) = nreq q /\
+    nreq (fst (q_step MAXR LIM q (OAnnounce prev h))) = nreq q.
+Proof.
+  intros MAXR LIM q prev h Hov.
+  assert (Ho : q_over MAXR LIM q = true).
+  { unfold q_over. apply orb_true_iff. destruct Hov as [H|H]; [left|right].
+    - rewrite Z.geb_leb. apply Z.leb_le. lia.
+    - rewrite Z.gtb_ltb. apply Z.ltb_lt. lia. }
+  split.
+  - unfold q_step. cbv beta zeta. rewrite Ho.
+    destruct (drop (nreq q) (queue q)) as [|[? ?] ?]; reflexivity.
+  - unfold q_step. cbv beta zeta. rewrite Ho. cbn [negb]. rewrite andb_false_r.
+    destruct (negb (q_tail q =? prev)); reflexivity.
+Qed.
+
+(* ---- unrequested blocks are ignored ---- *)
+Theorem unrequested_ignored :
+  forall (MAXR LIM : Z) (q : qstate) (h size : Z),
+    ~ In h (map fst (requested_part q)) ->
+    fst (q_step MAXR LIM q (ODeliver h size)) = q /\
+    exists d, snd (q_step MAXR LIM q (ODeliver h size)) = OK :: 0 :: d.
+Proof.
+  intros MAXR LIM q h size Hn. unfold requested_part in Hn.
+  apply (fill_None _ h size) in Hn.
+  unfold q_step. cbv beta zeta. rewrite Hn. cbn [fst snd].
+  split; [reflexivity|]. eexists. reflexivity.
+Qed.
+
+(* ---- clear after ---- *)
+Theorem clear_after_spec :
+  forall (MAXR LIM : Z) (q : qstate) (h : Z) (i : nat),
+    find_idx (fun x => fst x =? h) (queue q) 0 = Some i ->
+    let q1 := fst (q_step MAXR LIM q (OClearAfter h)) in
+    queue q1 = take (S i) (queue q) /\ nreq q1 = Nat.min (nreq q) (S i).
+Proof.
+  intros MAXR LIM q h i Hi. cbv zeta.
+  unfold q_step. cbv beta zeta. rewrite Hi. cbn [fst queue nreq].
+  split; reflexivity.
+Qed.
+
+(* ---- no duplicates, chain order ---- *)
+Section Sorted.
+Context {A : Type} (R : A -> A -> Prop).
+
+Lemma ssorted_snoc l x :
+  StronglySorted R l -> Forall (fun a => R a x) l -> StronglySorted R (l ++ [x]).
+Proof.
+  induction 1 as [|a l Hs IH Ha]; intros HF; cbn [app].
+  - constructor; constructor.
+  - inversion HF as [|? ? Hax HF']; subst.
+    constructor; [apply IH; exact HF'|].
+    apply Forall_app. split; [exact Ha|]. constructor; [exact Hax|constructor].
+Qed.
+
+Lemma ssorted_last_bound l y :
+  StronglySorted R (l ++ [y]) -> Forall (fun a => R a y) l.
+Proof.
+  induction l as [|a l IH]; cbn [app]; intros H; [constructor|].
+  inversion H as [|? ? Hs Ha]; subst.
+  constructor; [|apply IH; exact Hs].
+  apply Forall_app in Ha as [_ Ha]. inversion Ha; subst. assumption.
+Qed.
+
+Lemma ssorted_app_l l1 l2 : StronglySorted R (l1 ++ l2) -> StronglySorted R l1.
+Proof.
+  induction l1 as [|a l1 IH]; cbn [app]; intros H; [constructor|].
+  inversion H as [|? ? Hs Ha]; subst.
+  constructor; [apply IH; exact Hs|]. apply Forall_app in Ha as [Ha _]. exact Ha.
+Qed.
+End Sorted.
+
+Lemma ssorted_nodup (rk : Z -> Z) l :
+  StronglySorted (fun a b => rk a < rk b) l -> NoDup l.
+Proof.
+  induction 1 as [|a l Hs IH Ha]; constructor; [|exact IH].
+  intros Hin. pose proof (proj1 (List.Forall_forall _ _) Ha a) as H.
+  apply elem_of_list_In in Hin. apply H in Hin. lia.
+Qed.
+
+Lemma sorted_trans MAXR LIM (rk : Z -> Z) q o q1 iss pop :
+  qtrans MAXR LIM q o q1 iss pop ->
+  match o with OAnnounce prev h => rk prev < rk h | _ => True end ->
+  StronglySorted (fun a b => rk a < rk b) (map fst (queue q)) ->
+  StronglySorted (fun a b => rk a < rk b) (map fst (queue q1)).
+Proof.
+  intros Ht Hrk Hs.
+  assert (Hann : forall prev h, q_tail q = prev -> rk prev < rk h ->
+            StronglySorted (fun a b => rk a < rk b) (map fst (queue q ++ [(h, None)]))).
+  { intros prev h Htl Hlt. rewrite map_app. cbn [map fst].
+    apply ssorted_snoc; [exact Hs|].
+    unfold q_tail in Htl. destruct (last (queue q)) as [[l b]|] eqn:Hl.
+    - apply last_Some in Hl as [l' Hl]. subst l. rewrite Hl in *.
+      rewrite map_app in *. cbn [map fst] in *.
+      apply Forall_app. split.
+      + apply ssorted_last_bound in Hs.
+        eapply Forall_impl; [exact Hs|]. cbv beta. intros a Ha. lia.
+      + constructor; [exact Hlt|constructor].
+    - apply last_None in Hl. rewrite Hl. constructor. }
+  destruct Ht as [o|prev h Ht Hn Ho|prev h Ht|h size l d Hf|h sz l n Eq En|h b r Ed Eo|o Ho|h i Hi|h];
+    cbn [queue nreq].
+  - exact Hs.
+  - eapply Hann; eauto.
+  - eapply Hann; eauto.
+  - apply fill_Some in Hf as (_ & Hm & _).
+    rewrite map_app, Hm, <- map_app, take_drop. exact Hs.
+  - rewrite Eq in Hs. cbn [map] in Hs. inversion Hs; subst. assumption.
+  - exact Hs.
+  - constructor.
+  - rewrite <- (take_drop (S i) (queue q)), map_app in Hs.
+    apply ssorted_app_l in Hs. exact Hs.
+  - exact Hs.
+Qed.
+
+Theorem no_duplicates_chain_order :
+  forall (MAXR LIM : Z) (rk : Z -> Z) (ops : list op),
+    announces_ranked rk ops ->
+    let q := q_after MAXR LIM ops in
+    NoDup (map fst (queue q)) /\
+    StronglySorted (fun a b => rk a < rk b) (map fst (queue q)).
+Proof.
+  intros MAXR LIM rk ops Hr. cbv zeta.
+  assert (Hs : StronglySorted (fun a b => rk a < rk b) (map fst (queue (q_after MAXR LIM ops)))).
+  { apply (q_after_ind MAXR LIM
+             (fun q => StronglySorted (fun a b => rk a < rk b) (map fst (queue q)))
+             (fun o => match o with OAnnounce prev h => rk prev < rk h | _ => True end)).
+    - constructor.
+    - intros q o Ho Hq. eapply sorted_trans; [apply q_step_trans|exact Ho|exact Hq].
+    - exact Hr. }
+  split; [|exact Hs]. eapply ssorted_nodup. exact Hs.
+Qed.
+
+(* ---- FIFO processing ---- *)
+Definition noclear (o : op) : Prop :=
+  match o with OClearAll | OClearAfter _ | OReset => False | _ => True end.
+
+Lemma fifo_trans MAXR LIM q o q1 iss pop :
+  qtrans MAXR LIM q o q1 iss pop -> wf q ->
+  sublist (pop ++ map fst (requested_part q1)) (map fst (requested_part q) ++ iss) /\
+  (noclear o -> pop ++ map fst (requested_part q1) = map fst (requested_part q) ++ iss).
+Proof.
+  intros Ht Hw. unfold wf in Hw. unfold requested_part.
+  assert (Heq : forall (P : Prop) (a b : list Z), a = b -> sublist a b /\ (P -> a = b)).
+  { intros P a b ->. split; [reflexivity|intros _; reflexivity]. }
+  destruct Ht as [o|prev h Ht Hn Ho|prev h Ht|h size l d Hf|h sz l n Eq En|h b r Ed Eo|o Ho|h i Hi|h];
+    cbn [queue nreq].
+  - apply Heq. cbn [app]. rewrite app_nil_r. reflexivity.
+  - apply Heq. cbn [app].
+    rewrite take_ge by (rewrite app_length; cbn [length]; lia).
+    rewrite (take_ge (queue q)) by lia.
+    rewrite map_app. reflexivity.
+  - apply Heq. cbn [app]. rewrite take_app_le by lia. rewrite app_nil_r. reflexivity.
+  - apply Heq. apply fill_Some in Hf as (Hl & Hm & _).
+    rewrite take_app_alt by (rewrite Hl, take_length; lia).
+    cbn [app]. rewrite app_nil_r. exact Hm.
+  - apply Heq. rewrite Eq, En. cbn [firstn map fst app]. rewrite app_nil_r. reflexivity.
+  - apply Heq. cbn [app].
+    assert (Hlk : queue q !! nreq q = Some (h, b)).
+    { rewrite <- (Nat.add_0_r (nreq q)), <- lookup_drop, Ed. reflexivity. }
+    rewrite (take_S_r _ _ _ Hlk), map_app. reflexivity.
+  - split.
+    + cbn. apply sublist_nil_l.
+    + destruct Ho as [-> | ->]; intros [].
+  - split; [|intros []].
+    cbn [app]. rewrite app_nil_r, take_take.
+    replace (Nat.min (Nat.min (nreq q) (S i)) (S i)) with (Nat.min (S i) (nreq q)) by lia.
+    rewrite <- take_take, <- firstn_map. apply sublist_take.
+  - apply Heq. cbn [app]. rewrite app_nil_r. reflexivity.
+Qed.
+
+Lemma fifo_gen MAXR LIM ops :
+  forall q P I, wf q ->
+    sublist (P ++ map fst (requested_part q)) I ->
+    sublist (P ++ collect popped_of ops (q_run_from MAXR LIM q ops))
+            (I ++ collect issued_of ops (q_run_from MAXR LIM q ops)).
+Proof.
+  induction ops as [|o ops IH]; intros q P I Hw Hs.
+  - cbn [q_run_from collect]. rewrite !app_nil_r.
+    etransitivity; [|exact Hs]. apply sublist_inserts_r. reflexivity.
+  - pose proof (q_step_trans MAXR LIM q o) as Ht.
+    cbn [q_run_from]. destruct (q_step MAXR LIM q o) as [q1 ob]. cbn [fst snd] in Ht.
+    cbn [collect]. rewrite !app_assoc. apply IH.
+    + eapply wf_trans; eauto.
+    + destruct (fifo_trans _ _ _ _ _ _ _ Ht Hw) as [Hsub _].
+      rewrite <- app_assoc. etransitivity.
+      { apply sublist_app; [reflexivity|exact Hsub]. }
+      rewrite app_assoc. apply sublist_app; [exact Hs|reflexivity].
+Qed.
+
+Lemma fifo_gen_eq MAXR LIM ops :
+  forall q P I, wf q -> Forall noclear ops ->
+    P ++ map fst (requested_part q) = I ->
+    prefix (P ++ collect popped_of ops (q_run_from MAXR LIM q ops))
+           (I ++ collect issued_of ops (q_run_from MAXR LIM q ops)).
+Proof.
+  induction ops as [|o ops IH]; intros q P I Hw Hnc Hs.
+  - cbn [q_run_from collect]. rewrite !app_nil_r.
+    exists (map fst (requested_part q)). symmetry. exact Hs.
+  - inversion Hnc as [|? ? Ho Hnc']; subst.
+    pose proof (q_step_trans MAXR LIM q o) as Ht.
+    cbn [q_run_from]. destruct (q_step MAXR LIM q o) as [q1 ob]. cbn [fst snd] in Ht.
+    cbn [collect]. rewrite !app_assoc. apply IH.
+    + eapply wf_trans; eauto.
+    + exact Hnc'.
+    + destruct (fifo_trans _ _ _ _ _ _ _ Ht Hw) as [_ Heq].
+      rewrite <- app_assoc, (Heq Ho), app_assoc. reflexivity.
+Qed.
+
+Theorem fifo :
+  forall (MAXR LIM : Z) (ops : list op),
+    let tr := q_run MAXR LIM ops in
+    sublist (collect popped_of ops tr) (collect issued_of ops tr) /\
+    (Forall (fun o => match o with OClearAll | OClearAfter _ | OReset => False | _ => True end) ops ->
+     prefix (collect popped_of ops tr) (collect issued_of ops tr)).
+Proof.
+  intros MAXR LIM ops. cbv zeta. unfold q_run.
+  assert (Hw : wf (q_init 0)) by (unfold wf; cbn; lia).
+  split.
+  - apply (fifo_gen MAXR LIM ops (q_init 0) [] [] Hw). cbn. reflexivity.
+  - intros Hnc. apply (fifo_gen_eq MAXR LIM ops (q_init 0) [] [] Hw Hnc). reflexivity.
 Qed.
